@@ -495,3 +495,39 @@ pub fn c10_interval_definition() {
     let oki = match out[&Prayer::Isha] { Ok(ph) => (ph.value - (mg + ii / 60.)).abs() <= 1.0 / 3600.0, Err(()) => false };
     assert!(okf && oki, "C10/C12 a Fajr/Isha that the method defines by an interval keeps that definition (Shurooq - i, Maghrib + i)");
 }
+
+/// C10 (quick tier, no arithmetic): WHERE the portion / minutes policies apply they produce a flagged value for both
+/// Fajr and Isha ('always' variants and angle-based: both; 'invalid' variants: the missing ones), given Shurooq and Maghrib exist.
+#[kani::proof]
+#[kani::unwind(9)]
+pub fn c10_portion_applies() {
+    let elm = match kani::any::<u8>() % 7 {
+        0 => E::SeventhOfNightFajrIshaAlways,
+        1 => E::SeventhOfNightFajrIshaInvalid,
+        2 => E::SeventhOfDayFajrIshaAlways,
+        3 => E::SeventhOfDayFajrIshaInvalid,
+        4 => E::AngleBased,
+        5 => E::MinutesFromMaghribFajrIshaAlways,
+        _ => E::MinutesFromMaghribFajrIshaInvalid,
+    };
+    let mut hin = any_hours();
+    hin.insert(Prayer::Shurooq, Ok(any_f64_in(0., 24.)));
+    hin.insert(Prayer::Maghrib, Ok(any_f64_in(0., 24.)));
+    let mut params = any_params(elm);
+    let minutes = matches!(elm, E::MinutesFromMaghribFajrIshaAlways | E::MinutesFromMaghribFajrIshaInvalid);
+    if !minutes {
+        params.intervals.insert(Prayer::Fajr, 0.);
+        params.intervals.insert(Prayer::Isha, 0.);
+    }
+    let always = matches!(elm, E::SeventhOfNightFajrIshaAlways | E::SeventhOfDayFajrIshaAlways | E::MinutesFromMaghribFajrIshaAlways);
+    let any_missing = hin[&Prayer::Fajr].is_err() || hin[&Prayer::Isha].is_err() || hin[&Prayer::Asr].is_err();
+    let tad = any_tad(fixed_jd(), any_coords());
+    crate::vcover!();
+    let out = adj_for_ext_lat(&params, hin, &tad, Weather::default());
+    for key in [Prayer::Fajr, Prayer::Isha] {
+        let applies = always || (elm == E::AngleBased && any_missing) || (!always && elm != E::AngleBased && hin[&key].is_err());
+        if applies {
+            assert!(out[&key].is_ok() && flagged(&out[&key]), "C10 where a portion/minutes policy applies, Fajr and Isha are both produced and flagged extreme");
+        }
+    }
+}
